@@ -666,7 +666,10 @@ pub fn chunked_vs_whole(sc: &VmSc, chunk: usize, k: usize, obs: &mut Obs) -> Vec
         }
     }
     obs.hit("probe.whole-vs-chunked-evaluation");
-    obs.count("probe.whole-evaluation-real-milliseconds", whole_ms);
+    if !obs.audit {
+        // (a real-time measurement: reported as evidence, not part of the determinism audit)
+        obs.count("probe.whole-evaluation-real-milliseconds", whole_ms);
+    }
     obs.count("steps", 2 * whole_init.limit as u64);
     if let (Ok(Ok(w)), true) = (whole, pieces_ok) {
         let (a, b) = (snap(&w), snap(&piece));
